@@ -46,6 +46,8 @@ def _case(rng, fam, gseed, cfgd):
         cfgd["rho"] = float(10.0 ** rng.uniform(-6, 1))
     if rng.random() < 0.15:
         cfgd["lamb_init"] = float(10.0 ** rng.uniform(-3, 0))
+    if rng.random() < 0.25:
+        cfgd.update(C.rare_params(rng, allow_unvalidated=True))
     case = work.mk_case(fam, gseed, cfgd)
     case["y0"] = "rand" if rng.random() < 0.3 else "none"
     if fam in ("QP", "NLP") and rng.random() < 0.25:
